@@ -415,6 +415,12 @@ func (env *Env) eval(x ast.Expr) TV {
 		}
 		return env.fail("cannot index %s", exprString(n.X))
 	case *ast.UnaryExpr:
+		if n.Op == token.AND {
+			if a := env.evalAddr(n.X); a != nil {
+				return TV{Ty: types.NewPointer(a.Typ), A: a}
+			}
+			return env.fail("cannot take the address of %s", exprString(n.X))
+		}
 		v := env.eval(n.X)
 		switch n.Op {
 		case token.NOT:
@@ -430,6 +436,12 @@ func (env *Env) eval(x ast.Expr) TV {
 		case token.XOR:
 			v = env.defaultType(v)
 			return TV{T: "(bvnot " + v.T + ")", Ty: v.Ty}
+		case token.AND:
+			// &x.f : the address of a struct-valued field (interior pointer)
+			if a := env.evalAddr(n.X); a != nil {
+				return TV{Ty: types.NewPointer(a.Typ), A: a}
+			}
+			return env.fail("cannot take the address of %s", exprString(n.X))
 		}
 	case *ast.BinaryExpr:
 		return env.binary(n)
